@@ -35,7 +35,7 @@ def handle : List String → String
   | ["quote", kind, p, "|", _ref] =>
     match parseRunes p with
     | some p =>
-      -- `default=`: the code after pending/C13-quote.diff (strconv.Quote); "?" = quoting of some rune not modelled
+      -- `default=`: the code after 8c56087 (strconv.Quote); "?" = quoting of some rune not modelled
       let emitted : Option (List Nat) := if kind == "regex" then some (emitRegex p) else emitDefaultFixed p
       match emitted with
       | none => "?"
